@@ -739,12 +739,21 @@ def oracle_c16(run, ops, impl):
             st = new
             valid = set(plist(a[2]))
             continue
-        sender = a[3] if a[1] == "gated" else a[2]
+        sender = a[3] if a[1] in ("gated", "gatednil") else a[2]
         is_root = sender in valid and sender.lower() == st["root"].lower()
         listed = sender in valid and sender.lower() in [c.lower() for c in st["contracts"]]
         if res != "ok" and new != st:
             out.append(V("C16:rejected-message-changed-state", {"line": i + 1, "op": op, "result": res}))
-        if a[1] == "gated":
+        if a[1] == "gatednil":
+            # the gated message without its payload: never applied (nothing to apply), and refused as unauthorised without permission
+            if res == "ok":
+                out.append(V("C16:gated-accepted-for-non-sudoer" if not (is_root or listed) else "C16:payloadless-gated-op-reported-success",
+                             {"line": i + 1, "op": op, "root": st["root"], "contracts": st["contracts"]}))
+            elif res == "unauthorized" and (is_root or listed):
+                out.append(V("C16:gated-refused-for-sudoer:payloadless", {"line": i + 1, "op": op, "root": st["root"], "contracts": st["contracts"]}))
+            elif res == "invalid" and sender in valid and not (is_root or listed):
+                out.append(V("C16:payloadless-gated-op-not-gated-first", {"line": i + 1, "op": op, "result": res}))
+        elif a[1] == "gated":
             if res == "ok" and not (is_root or listed):
                 out.append(V("C16:gated-accepted-for-non-sudoer", {"line": i + 1, "op": op, "root": st["root"], "contracts": st["contracts"]}))
             if res != "ok" and (is_root or listed):
